@@ -130,6 +130,7 @@ type frame struct {
 	rpoIx map[int]int
 	panicIf Bit
 	refs  map[int]map[*Source]*BV // block -> equalities source==const known to hold there
+	facts map[int]*factSet        // block -> literal facts known to hold there
 	cur   *ssa.BasicBlock
 	hdrPreds []*ssa.BasicBlock
 }
@@ -223,7 +224,7 @@ func (in *Interp) Call(fn *ssa.Function, args []Val, bindings []Val, st *State) 
 		return nil, st
 	}
 	f := &frame{in: in, fn: fn, env: map[ssa.Value]Val{}, out: map[int]*State{}, bc: map[edgeKey]Bit{},
-		local: map[int]Bit{}, live: map[int]bool{}, rpoIx: map[int]int{}, panicIf: U.B0, refs: map[int]map[*Source]*BV{}}
+		local: map[int]Bit{}, live: map[int]bool{}, rpoIx: map[int]int{}, panicIf: U.B0, refs: map[int]map[*Source]*BV{}, facts: map[int]*factSet{}}
 	for i, p := range fn.Params {
 		if i < len(args) {
 			f.env[p] = args[i]
@@ -747,6 +748,9 @@ func (in *Interp) muxVal(c Bit, t, f Val) Val {
 			return &SliceV{Obj: x.Obj, Prefix: x.Prefix, Lo: bvMux(c, x.Lo, y.Lo), Len: bvMux(c, x.Len, y.Len), Elem: x.Elem}
 		}
 	}
+	if c.c {
+		return &MuxV{C: bnot(c), T: f, F: t}
+	}
 	return &MuxV{C: c, T: t, F: f}
 }
 
@@ -895,6 +899,24 @@ func (f *frame) computeRefs(b *ssa.BasicBlock, preds []*ssa.BasicBlock) {
 		}
 	}
 	f.refs[b.Index] = r
+	// literal facts
+	var pf *factSet
+	if d := b.Idom(); d != nil {
+		pf = f.facts[d.Index]
+	}
+	if len(preds) == 1 {
+		if q := f.facts[preds[0].Index]; q != nil && (pf == nil || len(q.atoms) > len(pf.atoms)) {
+			pf = q
+		}
+		c := f.bc[edgeKey{preds[0].Index, b.Index}]
+		if c != nil && !isConst(c) && !c.top {
+			nf := newFactSet(pf)
+			if nf.assume(c) {
+				pf = nf
+			}
+		}
+	}
+	f.facts[b.Index] = pf
 }
 
 // eqSourceConst recognises the bit eq(all bits of one source, const).
